@@ -419,9 +419,10 @@ pub fn run(args: &Args) -> i32 {
         "exploration",
         "corpus item x reader subject (7 subjects: Frame, StreamHeader, 4 typestates, uni upgrade); per pair: whole input through 3 paths, every proper prefix through 3 paths, reset/not-connected at every read index, every chunking (all compositions up to the stated length, header-region compositions beyond) x every Pending mask with <= P bits; distinct = (subject,item) pairs, all non-trivial (>=1 byte)",
     );
-    let thorough = args.tier == Tier::Thorough;
-    let full = if thorough { 12 } else { 9 };
-    let max_pending = if thorough { 3 } else { 2 };
+    let thorough = args.tier >= Tier::Thorough;
+    let deep = args.tier >= Tier::Deep;
+    let full = if deep { 14 } else if thorough { 12 } else { 9 };
+    let max_pending = if deep { 4 } else if thorough { 3 } else { 2 };
     let mut work: Vec<(Subj, Item)> = vec![];
     for s in ALL_SUBJ {
         for it in corpus(s, thorough) {
